@@ -18,7 +18,7 @@ Task:
 3. The failure must need something SPECIFIC to manifest (say so precisely in meta.json). Make it as hard to notice as you can while still being a genuine violation of the property text.
 4. Write a demonstration: a new Rust test module (e.g. contracts/staking/src/tests/seeded_demo.rs wired into tests/mod.rs, or the treasury equivalent, or packages/initia-proto/tests/seeded_demo.rs; test function names starting with `seeded_demo`; for a change that only exists in the miniwasm build gate the module with #[cfg(feature = "miniwasm")] and mention "miniwasm" in meta.json) that PASSES on the clean tree and FAILS with your change.
 5. Produce these files in /tmp/mut6/{pid}.out/ : patch.diff (git diff of the bug only, applies to the clean tree with `git apply`), demo.diff (git diff adding only the demonstration test, applies to the clean tree independently of patch.diff), meta.json with keys: property ("{pid}"), summary (what was changed and why it breaks the property), needs (what specific state/input is needed), demo_cmd, ran (list of the commands you ran and their outcomes: demo on clean tree passes; demo with change fails; full suite with change passes 107).
-6. Leave the worktree clean at the end (git checkout -- . && git clean -fd except the target dir), so that both diffs apply to it.
+6. Do not use `git stash` (the stash is shared between worktrees of one repository). Leave the worktree clean at the end (git checkout -- . && git clean -fd except the target dir), so that both diffs apply to it.
 Verify everything yourself by actually running the commands. Report the summary and the paths when done.'''
 import sys,os
 os.makedirs('/tmp/mut6',exist_ok=True)
